@@ -351,11 +351,11 @@ pub fn run(ctx: &Ctx) -> EvidenceMeta {
   let mut jobs: Vec<Job> = vec![];
   for s in &subs {
     let n = match s.proto {
-      Proto::V4L | Proto::V2L => ctx.n(2000, 40_000),
-      p if p.is_local() => ctx.n(700, 14_000),
-      Proto::V2P | Proto::V4P => ctx.n(400, 8_000),
-      Proto::V1P => ctx.n(120, 2400),
-      _ => ctx.n(40, 800),
+      Proto::V4L | Proto::V2L => ctx.n(10_000, 100_000),
+      p if p.is_local() => ctx.n(3500, 35_000),
+      Proto::V2P | Proto::V4P => ctx.n(2000, 20_000),
+      Proto::V1P => ctx.n(500, 5000),
+      _ => ctx.n(150, 1500),
     };
     jobs.push(Box::new(move || ctx.prop(s, case(s.proto, s.layer), n)));
   }
